@@ -110,7 +110,7 @@ type builtCase struct {
 // C14: compiler output always compiles; invalid schemas are rejected cleanly.
 func C14(c *runner.Cfg) *report.Result {
 	res := report.New("C14", "")
-	res.Rule = "schema sets from the grammar-directed generator (multi-package, aliases, every field kind, lists, structs, enums, services with every method form) must be accepted and their generated Go must build; every single-rule mutant (~45 operators: duplicate definition/field/tag/enum name/number/method/import/option, zero / 65536 / 2^31 tags, enum values beyond int32, missing zero value, unknown type/import/alias/imported type, service-typed field and element, struct fields of message/list/any/message(any) type, self- and mutually recursive structs, non-message channel types, single non-message input/output, oneway with output/channel, generated-name collision, self/circular imports, lists of any/message) must be rejected with an error naming the offending element, or be accepted AND build; the pipeline must not panic or hang; texts with lexical errors must make the real cmd/spec binary exit non-zero; all accepted outputs are laid into one scratch module and judged by `go build ./...`; non-trivial = mutant or valid set that reached the Go compiler or was rejected with a message; distinct = distinct (schema, operator, site)"
+	res.Rule = "schema sets from the grammar-directed generator (multi-package, aliases, every field kind, lists, structs, enums, services with every method form) must be accepted and their generated Go must build, with and without the rpc code (--skip-rpc); every single-rule mutant (~45 operators: duplicate definition/field/tag/enum name/number/method/import/option, zero / 65536 / 2^31 tags, enum values beyond int32, missing zero value, unknown type/import/alias/imported type, service-typed field and element, struct fields of message/list/any/message(any) type, the same type rules inside the inline request and response field lists of methods, self- and mutually recursive structs, non-message channel types, single non-message input/output, oneway with output/channel, generated-name collision, self/circular imports, lists of any/message) must be rejected with an error naming the offending element, or be accepted AND build; the pipeline must not panic or hang; texts with lexical errors must make the real cmd/spec binary exit non-zero; all accepted outputs are laid into one scratch module and judged by `go build ./...`; non-trivial = mutant or valid set that reached the Go compiler or was rejected with a message; distinct = distinct (schema, operator, site)"
 	sc, err := newScratch()
 	if err != nil {
 		res.Inconcl("scratch module: %v", err)
@@ -130,7 +130,8 @@ func C14(c *runner.Cfg) *report.Result {
 			s        *sg.Schema
 			names    []string
 		}
-		list := []todo{{"", "", base.Clone(), nil}}
+		// the valid set is generated twice: with and without the rpc code
+		list := []todo{{"", "", base.Clone(), nil}, {"", "skip-rpc", base.Clone(), nil}}
 		for _, m := range sg.Mutants(base, 2) {
 			list = append(list, todo{m.Op, m.Site, m.Schema, m.Names})
 		}
@@ -148,7 +149,7 @@ func C14(c *runner.Cfg) *report.Result {
 				res.Inconcl("write schema: %v", err)
 				continue
 			}
-			gerr, hung := generateAll(sc, t.s, k%2 == 1 && t.op != "" && !strings.Contains(t.op, "channel") && !strings.Contains(t.op, "oneway") && !strings.Contains(t.op, "service") && !strings.Contains(t.op, "method") && !strings.Contains(t.op, "input") && !strings.Contains(t.op, "output") && !strings.Contains(t.op, "collision"))
+			gerr, hung := generateAll(sc, t.s, t.site == "skip-rpc" || k%2 == 1 && t.op != "" && !strings.Contains(t.op, "channel") && !strings.Contains(t.op, "oneway") && !strings.Contains(t.op, "service") && !strings.Contains(t.op, "method") && !strings.Contains(t.op, "input") && !strings.Contains(t.op, "output") && !strings.Contains(t.op, "collision"))
 			switch {
 			case hung:
 				res.Violate("c14:hang:"+t.op, "the compiler/generator did not return within 60 s", wit(""))
